@@ -10,7 +10,7 @@
 import re
 from .lib import mirq, pathsens, book
 from .lib.types import split_generic
-from .lib.facts import strip_generics, op_local, op_place
+from .lib.facts import strip_generics, op_local, op_place, callee_name
 
 RV = 'runtime_violation::RuntimeViolation'
 DISCARDERS = re.compile(r'^std::result::Result::(ok|is_ok|is_err|is_ok_and|is_err_and|unwrap_or|unwrap_or_default|unwrap_or_else|map_or|map_or_else|iter|iter_mut|into_iter|and|and_then_ok|or|or_else|err|unwrap_err|expect_err|into_ok|copied|cloned|unwrap_or_default)$|^<std::result::Result as std::iter::IntoIterator>::into_iter$|^std::mem::drop$|^std::mem::forget$')
@@ -151,6 +151,87 @@ def handler_body(mir, b, regs_by_fn):
     return names
 
 
+def raise_gate(ctx, r4):
+    """R06.4 (also R07.7): in eval_func_with_values, every *origin* of the argument vector that reaches the frame
+    construction (the incoming parameter, and the payload of TailCall taken by the trampoline) must pass the raise test --
+    a switch that is data-dependent on that vector and from which the erroring argument is returned -- before
+    from_template is called.  Must-pass-through: with the test blocks removed from the CFG, no origin reaches the frame."""
+    mir = ctx.mir
+    efv = mir.find('runtime_scope::RuntimeScope::eval_func_with_values')
+    if len(efv) != 1:
+        r4.fail('anchor/efv', '-', 'eval_func_with_values not found')
+        return
+    b = efv[0]
+    frames = [(bb, t) for bb, t in b.calls() if strip_generics(t.get('callee') or '') == 'runtime_scope::RuntimeScope::from_template']
+    if not frames:
+        r4.fail('anchor/from_template', mirq.site(b, 0), 'no call of from_template in eval_func_with_values')
+        return
+    defs = b.defs()
+    # writes through a projection (e.g. a loop-carried `args = new_args` compiled as a drop-and-replace) count as definitions too
+    for bb, t in frames:
+        vec_ops = [a for a in t['args'] if op_place(a) is not None and not op_place(a)['p'] and 'Vec<' in b.local_ty(op_place(a)['l']) and 'ManagedXError' in b.local_ty(op_place(a)['l'])]
+        if len(vec_ops) != 1:
+            r4.fail('anchor/frame-args', mirq.site(b, bb), 'the argument vector handed to from_template was not recognised')
+            continue
+        a = op_place(vec_ops[0])['l']
+        # origins: follow plain moves backwards
+        aliases = set()
+        origins = []   # (block, description)
+        todo = [a]
+        while todo:
+            l = todo.pop()
+            if l in aliases:
+                continue
+            aliases.add(l)
+            ds = defs.get(l, [])
+            if not ds and 1 <= l <= b.d['argc']:
+                origins.append((0, 'parameter %s' % (b.name_of_local(l) or '_%d' % l)))
+            for kind, dbb, idx, x in ds:
+                if kind == 'stmt' and x['rv']['k'] == 'use' and op_place(x['rv']['op']) is not None:
+                    pl = op_place(x['rv']['op'])
+                    if not pl['p']:
+                        todo.append(pl['l'])
+                    else:
+                        origins.append((dbb, 'payload %s of a %s (%s)' % ('/'.join(str(e.get('dc') or e.get('f')) if isinstance(e, dict) else e for e in pl['p']), b.local_ty(pl['l']).split('<')[0].split('::')[-1], mirq.site(b, dbb, idx))))
+                elif kind == 'call':
+                    origins.append((dbb, 'result of %s' % strip_generics(callee_name(x) or '?')))
+                else:
+                    origins.append((dbb, 'computed at %s' % mirq.site(b, dbb, idx)))
+        # raise exits: TailedEvalResult::Value(Err(e)) with e data-dependent on the vector
+        exits = []
+        for i, j, s in b.stmts():
+            if s['k'] == 'assign' and s['rv']['k'] == 'agg' and s['rv'].get('adt') == 'xexpr::TailedEvalResult' and s['rv']['v'] == 'Value':
+                k, v = mirq.chase_op(b, s['rv']['ops'][0])
+                if k == 'rv' and v[2]['rv']['k'] == 'agg' and v[2]['rv'].get('adt') == 'std::result::Result' and v[2]['rv']['v'] == 'Err':
+                    el = op_local(v[2]['rv']['ops'][0])
+                    sl = mirq.backslice(b, [el]) if el is not None else set()
+                    if sl & aliases:
+                        exits.append(i)
+        dom = b.dominators()
+        tests = set()
+        for r in exits:
+            for d in dom.get(r, ()):
+                tm = b.term(d)
+                if tm['k'] != 'switch' or d == r:
+                    continue
+                dl = op_local(tm['discr'])
+                if dl is not None and (mirq.backslice(b, [dl]) & aliases) and not mirq.dominates(b, r, bb):
+                    tests.add(d)
+        if not exits or not tests:
+            r4.inst({'frame_site': mirq.site(b, bb), 'raise_exits': 0}, ok=False)
+            r4.fail('eval_func_with_values/no-raise', mirq.site(b, bb), "a user function's frame is built without first returning an erroring argument: f(5, error) runs f and drops the error when the parameter is unused (the book: the error prevents the call)")
+            continue
+        for obb, what in sorted(set(origins)):
+            reach = b.reachable(obb, avoid=tests)
+            # the origin block itself may be a test block's successor only through the test
+            ok = bb not in reach
+            r4.inst({'frame_site': mirq.site(b, bb), 'argument_vector_origin': what, 'raise_tests': sorted(mirq.site(b, x) for x in tests), 'every_path_passes_a_test': ok}, ok=ok, kind=('origin', what.split(' (')[0]))
+            if not ok:
+                r4.fail('eval_func_with_values/ungated-origin/%s' % re.sub(r'[^A-Za-z0-9]+', '-', what.split(' (')[0]).strip('-'), mirq.site(b, bb),
+                        'the argument vector coming from %s reaches from_template on a path that does not pass the erroring-argument test: an error argument of that call (e.g. of a tail iteration) is bound to a parameter instead of being returned' % what)
+    r4.need(2)
+
+
 def run(ctx):
     from .lib import astq
     mir = ctx.mir
@@ -228,35 +309,7 @@ def run(ctx):
 
     # ---------------- R06.4 user-function calls raise erroring arguments before the frame is built
     r4 = ctx.rule('R06.4', 'user-function call path returns an erroring argument before building the frame')
-    efv = mir.find('runtime_scope::RuntimeScope::eval_func_with_values')
-    if len(efv) != 1:
-        r4.fail('anchor/efv', '-', 'eval_func_with_values not found')
-    else:
-        b = efv[0]
-        frames = [bb for bb, t in b.calls() if strip_generics(t.get('callee') or '') == 'runtime_scope::RuntimeScope::from_template']
-        # raise exits: _x = TailedEvalResult::Value(Err(e)) with e data-dependent on the argument vector
-        exits = []
-        for i, j, s in b.stmts():
-            if s['k'] == 'assign' and s['rv']['k'] == 'agg' and s['rv'].get('adt') == 'xexpr::TailedEvalResult' and s['rv']['v'] == 'Value':
-                k, v = mirq.chase_op(b, s['rv']['ops'][0])
-                if k == 'rv' and v[2]['rv']['k'] == 'agg' and v[2]['rv'].get('adt') == 'std::result::Result' and v[2]['rv']['v'] == 'Err':
-                    el = op_local(v[2]['rv']['ops'][0])
-                    sl = mirq.backslice(b, [el]) if el is not None else set()
-                    arg_locals = {3} | {l for l in range(len(b.locals)) if b.name_of_local(l) == 'args'}
-                    if sl & arg_locals:
-                        exits.append(i)
-        for f in frames:
-            ok = False
-            for r in exits:
-                common = [d for d in b.dominators()[f] if d in b.dominators()[r] and b.term(d)['k'] == 'switch']
-                # the deciding switch: the raise exit and the frame are on different branches
-                if common and not mirq.dominates(b, r, f) and not mirq.dominates(b, f, r):
-                    # and the frame cannot be reached without passing the deciding test in the same iteration
-                    ok = True
-            r4.inst({'frame_site': mirq.site(b, f), 'raise_exits': [mirq.site(b, r) for r in exits]}, ok=ok)
-            if not ok:
-                r4.fail('eval_func_with_values/no-raise', mirq.site(b, f), 'a user function\'s frame is built without first returning an erroring argument: f(5, error) runs f and drops the error when the parameter is unused (the book: the error prevents the call)')
-        r4.need(1)
+    raise_gate(ctx, r4)
 
     # ---------------- R06.5 collections cannot hold errors
     r5 = ctx.rule('R06.5', 'collection element types cannot hold an error (only scope cells and argument vectors hold EvaluatedValue)')
